@@ -2,24 +2,36 @@
   C08 — serialization is faithful, size-exact, stream-composable and fails cleanly.
 
   All statements are about the definitions of `Lattigo/Model/Codec.lean` that the driver
-  executes (`enc`, `size`, `dec`, `decC`, `decMany`, `decInto`), for EVERY format `f : Fmt`
-  (structural induction), hence for every lattigo type of the table at the end of that file
-  (`fmtOf`) — and for every value, of any size.
+  executes (`enc`, `size`, `dec`, `decC`, `decMany`, `decInto`, `allocs`), for EVERY format
+  `f : Fmt` (structural induction), hence for every lattigo type of the table at the end of
+  that file (`fmtOf`) — and for every value, of any size. The model follows /repo with the
+  fixes /verif/fixes/C08-*.diff applied (the tie lines, incl. `into` on dirty receivers, check
+  that it does).
 
-  Positive theorems (the wire format itself is sound):
-    size_exact, roundtrip, back_to_back, trunc_err, chunk_indep, chunked_roundtrip,
-    enc_bytes, recv_indep_fresh, recv_indep_clean, bounded_alloc_partial.
-  Negative theorems (the Go decoders/sizers as they are written violate the property; each
-  has a harness probe exhibiting the same witness on the real code):
-    size_exact_counterexample            EvaluationKey.BinarySize after Expand
-    recv_indep_counterexample_flags      CiphertextMetaData.UnmarshalJSON never clears flags
-    recv_indep_counterexample_metadata   Element.ReadFrom keeps a stale MetaData
-    recv_indep_counterexample_seed       EvaluationKey.ReadFrom keeps a stale Seed
-    recv_indep_counterexample_map        structs.Map.ReadFrom keeps old entries
-    bounded_alloc_counterexample         Vector.ReadFrom allocates what 8 input bytes announce
-  What is NOT modelled (tested by probes only): bufio internals / single `Read` calls,
-  the unbounded recursion of `buffer.ReadUint64Slice` on a short `buffer.Buffer`, allocation
-  from unchecked lengths, `encoding/json` and `math/big` number texts.
+    size_exact, size_exact_wt      BinarySize = bytes written, for every value that has the
+                                   shape of its type (incl. keys carrying an unwritten seed)
+    roundtrip, back_to_back        exact consumption, several objects on one stream
+    trunc_err                      no proper prefix is accepted
+    chunk_indep, chunked_roundtrip the transport may fragment the stream arbitrarily
+    enc_bytes                      encodings are byte strings
+    recv_indep                     the decoded value does not depend on the receiver, for every
+                                   lattigo type and every prior state of the receiver
+    recv_indep_clean               … and the exact condition on a format for that
+    recv_indep_fresh               `dec` is `decInto` on a fresh object
+    bounded_alloc                  on EVERY input, allocation requests ≤ max(input length, 2^20)
+                                   (unread bytes known: `UnmarshalBinary` / `*buffer.Buffer`)
+    bounded_alloc_honest           the length checks never reject an honest input
+
+  Hypotheses the proofs force, and the known findings behind them:
+    * `Shape`/`WT` ask opaque blocks to have the announced width. `rlwe.Scale` prints its two
+      numbers with `Text('e', 39)`, 45 characters only while the decimal exponent has two
+      digits: KNOWN FINDING `C08/rlwe.Scale.BinarySize/assumes-two-digit-exponent`.
+    * `bounded_alloc` is about the reader that knows how many bytes are left. On a
+      `bufio.Reader` the count cannot be compared with anything before `make`:
+      KNOWN FINDING `C08/structs.Vector.ReadFrom/unchecked-length`.
+  Not modelled (probes only): bufio internals (KNOWN FINDING
+  `C08/ReadFrom(io.Reader)/private-bufio-overreads-next-object`), `encoding/json` and `math/big`
+  number texts (KNOWN FINDING `C08/bootstrapping.ParametersLiteral.UnmarshalBinary/...`).
 -/
 import Lattigo.Proofs.Codec
 import Lattigo.Proofs.CodecRecv
@@ -43,28 +55,37 @@ def ctEx : Val :=
 
 theorem ctEx_wt : WT ciphertext ctEx := wtb_sound _ _ (by decide)
 
-/-! ### size -/
-
-/-- **size_exact.** `WriteTo` writes exactly `BinarySize()` bytes — for well-typed values. -/
-theorem size_exact (f : Fmt) (v : Val) (h : WT f v) : (enc f v).length = size f v :=
-  Codec.size_exact f v h
-
-example : (enc ciphertext ctEx).length = size ciphertext ctEx := size_exact _ _ ctEx_wt
-example : size ciphertext ctEx = 1 + 277 + 8 + 2 * (8 + (8 + 2 * 8)) := by decide
-
-/-- an expanded compressed key: degree 1 (two polynomials per entry) and the seed still set
-    (`EvaluationKey.Expand` has a value receiver and never clears `Seed`). -/
+/-- a key of degree 1 (two polynomials per entry) that still carries a seed: what
+    `EvaluationKey.Expand` used to leave behind; not `WT` but `Shape`d. -/
 def expandedKeyEx : Val :=
   .pair (.pair (.num 0) (.list [.list [.list [.pair (.list []) (.list []), .pair (.list []) (.list [])]]]))
     (.some (.bytes (List.replicate 32 7)))
 
-/-- **size_exact_counterexample.** The hypothesis `WT` of `size_exact` cannot be dropped:
-    `EvaluationKey.BinarySize` (core/rlwe/keys.go:425) counts the seed iff `Seed != nil`,
-    `EvaluationKey.WriteTo` (keys.go:456) writes it iff the key is compressed. For a key that
-    went through `Expand` the announced size is 32 bytes more than what is written. -/
-theorem size_exact_counterexample :
-    ∃ v, (enc evalKey v).length + 32 = size evalKey v ∧ ¬ WT evalKey v := by
-  refine ⟨expandedKeyEx, by decide, ?_⟩
+/-- a plain (degree 1) key without seed, empty polynomials -/
+def plainKeyEx : Val :=
+  .pair (.pair (.num 0) (.list [.list [.list [.pair (.list []) (.list []), .pair (.list []) (.list [])]]]))
+    .none
+
+/-- a ciphertext without metadata, `N = 1` -/
+def ctNoMeta : Val := .pair .none (.list [.list [.list [.num 4]]])
+
+/-! ### size -/
+
+/-- **size_exact.** `WriteTo` writes exactly `BinarySize()` bytes, for every value that has the
+    shape of its type: no range condition, any combination of optional fields. -/
+theorem size_exact (f : Fmt) (v : Val) (h : Shape f v) : (enc f v).length = size f v :=
+  size_exact_shape f v h
+
+/-- `size_exact` for well-typed values. -/
+theorem size_exact_wt (f : Fmt) (v : Val) (h : WT f v) : (enc f v).length = size f v :=
+  Codec.size_exact f v h
+
+example : (enc ciphertext ctEx).length = size ciphertext ctEx := size_exact_wt _ _ ctEx_wt
+example : size ciphertext ctEx = 1 + 277 + 8 + 2 * (8 + (8 + 2 * 8)) := by decide
+
+/-- the expanded key that still carries a seed (the former counterexample: `BinarySize` used
+    to announce 32 bytes more than `WriteTo` wrote) is covered: it is not well-typed … -/
+example : ¬ WT evalKey expandedKeyEx := by
   intro h
   simp only [evalKey, WT] at h
   obtain ⟨x, y, hv, _, hy⟩ := h
@@ -74,6 +95,19 @@ theorem size_exact_counterexample :
   rcases hy with ⟨hp, _⟩ | ⟨_, hn⟩
   · exact absurd hp (by decide)
   · exact absurd hn (by simp)
+
+/-- … but it has the shape of a key, and its announced size is what is written. -/
+example : (enc evalKey expandedKeyEx).length = size evalKey expandedKeyEx :=
+  size_exact evalKey expandedKeyEx (by
+    refine ⟨_, _, rfl, ?_, Or.inr ⟨_, rfl, ⟨_, rfl, by decide⟩⟩⟩
+    refine ⟨_, _, rfl, ⟨_, rfl⟩, ⟨_, rfl, ?_⟩⟩
+    intro r hr; simp only [List.mem_singleton] at hr; subst hr
+    refine ⟨_, rfl, ?_⟩
+    intro c hc; simp only [List.mem_singleton] at hc; subst hc
+    refine ⟨_, rfl, ?_⟩
+    intro q hq
+    simp only [List.mem_cons, List.not_mem_nil, or_false, or_self] at hq; subst hq
+    exact ⟨_, _, rfl, ⟨[], rfl, by simp⟩, ⟨[], rfl, by simp⟩⟩)
 
 /-! ### round trip, exact consumption, several objects on one stream -/
 
@@ -136,105 +170,74 @@ theorem enc_bytes (f : Fmt) (v : Val) (hf : FmtBytes f) (hv : ValBytes f v) : Is
 
 /-! ### allocation -/
 
-/- Full statement wanted by the property: "for EVERY input `bs`, every allocation request of
-   the decoder is bounded by a function of `bs.length`". It is false of the code as written
-   (`bounded_alloc_counterexample`); what holds is the statement for honest inputs. -/
+/-- **bounded_alloc.** On EVERY input `bs`, every allocation the decoder requests before
+    having read the data is at most `max bs.length 2^20` elements (the reader knows how many
+    bytes are left: `UnmarshalBinary`, `ReadFrom(*buffer.Buffer)`). -/
+theorem bounded_alloc (f : Fmt) (bs : List Nat) : ∀ a ∈ allocs f bs, a ≤ max bs.length blockMax :=
+  allocs_bounded f bs
 
-/-- **bounded_alloc_partial.** On the encoding of a well-typed value (followed by anything)
-    the decoder requests exactly the element counts present in the value. Gap to the full
-    statement: nothing bounds the requests on other inputs, because the Go code does not
-    compare a count with the input that is left before calling `make`. -/
-theorem bounded_alloc_partial (f : Fmt) (v : Val) (rest : List Nat) (h : WT f v) :
+/-- the input that used to make `Vector[uint64].ReadFrom` request 2^40 slots now requests
+    nothing (and is rejected). -/
+example : allocs (vecOf u64) (leBytes 8 (2 ^ 40)) = [] ∧ dec (vecOf u64) (leBytes 8 (2 ^ 40)) = none := by
+  constructor <;> rfl
+
+/-- **bounded_alloc_honest.** The checks never reject an honest input: on the encoding of a
+    well-typed value (followed by anything) the requests are exactly the element counts of
+    the slices and blocks of the value. -/
+theorem bounded_alloc_honest (f : Fmt) (hp : PosElems f) (v : Val) (rest : List Nat) (h : WT f v) :
     allocs f (enc f v ++ rest) = lens f v :=
-  allocs_honest f v rest h
+  allocs_honest f hp v rest h
 
 example : allocs ciphertext (enc ciphertext ctEx) = [2, 1, 2, 1, 2] := by
-  rw [← List.append_nil (enc ciphertext ctEx), bounded_alloc_partial _ _ _ ctEx_wt]; decide
-
-/-- **bounded_alloc_counterexample.** For every `n < 2^64` there is an 8-byte input on which
-    the decoder of `structs.Vector[uint64]` (utils/structs/vector.go:177) requests `n`
-    elements; the decode then fails (for `n > 0`), after the allocation. -/
-theorem bounded_alloc_counterexample (n : Nat) (hn : n < 256 ^ 8) :
-    ∃ bs, bs.length = 8 ∧ allocs (vecOf u64) bs = [n] ∧ (0 < n → dec (vecOf u64) bs = none) :=
-  ⟨leBytes 8 n, allocs_unchecked n hn⟩
-
-example : ∃ bs, bs.length = 8 ∧ allocs (vecOf u64) bs = [1099511627776] ∧
-    (0 < 1099511627776 → dec (vecOf u64) bs = none) :=
-  bounded_alloc_counterexample (2 ^ 40) (by decide)
+  rw [← List.append_nil (enc ciphertext ctEx),
+    bounded_alloc_honest _ posElems_ciphertext _ _ ctEx_wt]; decide
 
 /-! ### the receiver -/
 
-/-- **recv_indep_fresh.** The Go decoder run on a freshly allocated object computes `dec`:
-    the specification decoder `dec` takes no receiver, i.e. receiver independence holds of it
-    by construction; `decInto` is the model of the decoders as they are written. -/
+/-- **recv_indep_fresh.** The decoder run on a freshly allocated object computes `dec`. -/
 theorem recv_indep_fresh (f : Fmt) (bs : List Nat) : decInto f .unit bs = dec f bs :=
   decInto_fresh f bs
 
-/-- **recv_indep_clean.** For every format without sticky flags, kept optionals, maps and
-    conditional suffixes, the Go decoder's result does not depend on the receiver at all. -/
-theorem recv_indep_clean (f : Fmt) (hc : Clean f) (r₁ r₂ : Val) (bs : List Nat) :
-    decInto f r₁ bs = decInto f r₂ bs := by
-  rw [decInto_clean f hc r₁, decInto_clean f hc r₂]
+/-- **recv_indep_clean.** For every format without sticky flags, kept optionals, merging maps
+    and kept conditional suffixes, the decoder's result does not depend on the receiver. -/
+theorem recv_indep_clean (f : Fmt) (hc : Clean f) (r : Val) (bs : List Nat) :
+    decInto f r bs = dec f bs :=
+  decInto_clean f hc r bs
 
-example (r₁ r₂ : Val) (bs : List Nat) : decInto gadget r₁ bs = decInto gadget r₂ bs :=
-  recv_indep_clean gadget clean_gadget r₁ r₂ bs
+/-- **recv_indep.** For every lattigo type, every prior state `r` of the receiving object and
+    every input: decoding into the object gives what decoding the bytes alone gives. -/
+theorem recv_indep (name : String) (f : Fmt) (hf : fmtOf name = some f) (r : Val) (bs : List Nat) :
+    decInto f r bs = dec f bs :=
+  decInto_clean f (fmtOf_clean name f hf) r bs
 
-/-- **recv_indep_counterexample_flags.** `CiphertextMetaData.UnmarshalJSON`
-    (core/rlwe/metadata.go:393-403) sets a flag when the input says 1 and does nothing
-    otherwise: decoding `IsNTT = 0` into an object whose `IsNTT` is set yields `IsNTT = 1`. -/
-theorem recv_indep_counterexample_flags :
-    ∃ r bs v v', decInto ctMeta r bs = some (v, []) ∧ dec ctMeta bs = some (v', []) ∧ v ≠ v' :=
-  ⟨.pair (.num 1) (.num 0), enc ctMeta (.pair (.num 0) (.num 0)),
-   .pair (.num 1) (.num 0), .pair (.num 0) (.num 0), by rfl, by rfl, by simp⟩
+/-- the former counterexamples: flags set in the receiver, stale metadata, stale seed. -/
+example : decInto ctMeta (.pair (.num 1) (.num 0)) (enc ctMeta (.pair (.num 0) (.num 0)))
+    = some (.pair (.num 0) (.num 0), []) := by rfl
+example : decInto ciphertext ctEx (enc ciphertext ctNoMeta) = some (ctNoMeta, []) := by rfl
+example : decInto evalKey expandedKeyEx (enc evalKey plainKeyEx) = some (plainKeyEx, []) := by rfl
+example : decInto (mapOf u8) (.list [.pair (.num 3) (.num 9)]) (enc (mapOf u8) (.list [.pair (.num 5) (.num 1)]))
+    = some (.list [.pair (.num 5) (.num 1)], []) := by rfl
+example (r : Val) (bs : List Nat) : decInto ciphertext r bs = dec ciphertext bs :=
+  recv_indep "ct" ciphertext rfl r bs
 
-/-- a ciphertext without metadata, `N = 1` -/
-def ctNoMeta : Val := .pair .none (.list [.list [.list [.num 4]]])
-
-/-- **recv_indep_counterexample_metadata.** `Element.ReadFrom` (core/rlwe/element.go:403)
-    only touches `MetaData` when the presence byte is 1: a ciphertext written without
-    metadata, read into an object that has metadata, comes back WITH (stale) metadata. -/
-theorem recv_indep_counterexample_metadata :
-    ∃ r bs v v', decInto ciphertext r bs = some (v, []) ∧ dec ciphertext bs = some (v', []) ∧ v ≠ v' :=
-  ⟨ctEx, enc ciphertext ctNoMeta,
-   .pair (.some metaEx) (.list [.list [.list [.num 4]]]), ctNoMeta, by rfl, by rfl, by simp [ctNoMeta]⟩
-
-/-- a plain (degree 1) key without seed, empty polynomials -/
-def plainKeyEx : Val :=
-  .pair (.pair (.num 0) (.list [.list [.list [.pair (.list []) (.list []), .pair (.list []) (.list [])]]]))
-    .none
-
-/-- **recv_indep_counterexample_seed.** `EvaluationKey.ReadFrom` (core/rlwe/keys.go:502)
-    assigns `Seed` only when the decoded key is compressed: an uncompressed key read into an
-    object that held a compressed key keeps that key's seed. -/
-theorem recv_indep_counterexample_seed :
-    ∃ r bs v v', decInto evalKey r bs = some (v, []) ∧ dec evalKey bs = some (v', []) ∧ v ≠ v' :=
-  ⟨expandedKeyEx, enc evalKey plainKeyEx, expandedKeyEx, plainKeyEx, by rfl, by rfl,
-   by simp [expandedKeyEx, plainKeyEx]⟩
-
-/-- **recv_indep_counterexample_map.** `structs.Map.ReadFrom` (utils/structs/map.go:104)
-    stores the decoded entries into the receiver's map without clearing it. -/
-theorem recv_indep_counterexample_map :
-    ∃ r bs v v', decInto (mapOf u8) r bs = some (v, []) ∧ dec (mapOf u8) bs = some (v', []) ∧ v ≠ v' :=
-  ⟨.list [.pair (.num 3) (.num 9)], enc (mapOf u8) (.list [.pair (.num 5) (.num 1)]),
-   .list [.pair (.num 3) (.num 9), .pair (.num 5) (.num 1)], .list [.pair (.num 5) (.num 1)],
-   by rfl, by rfl, by simp⟩
+/-- the leaky decoder flavours are still expressible, and they do leak: a `sticky` flag (the
+    decoder of `CiphertextMetaData` before fix C08-D) keeps a flag that is set in the receiver. -/
+example : decInto (.hex2 .sticky) (.num 1) [48, 48] = some (.num 1, []) ∧
+    dec (.hex2 .sticky) [48, 48] = some (.num 0, []) := by constructor <;> rfl
 
 end Lattigo.C08
 
 #print axioms Lattigo.C08.ctEx_wt
 #print axioms Lattigo.C08.size_exact
-#print axioms Lattigo.C08.size_exact_counterexample
+#print axioms Lattigo.C08.size_exact_wt
 #print axioms Lattigo.C08.roundtrip
 #print axioms Lattigo.C08.back_to_back
 #print axioms Lattigo.C08.trunc_err
 #print axioms Lattigo.C08.chunk_indep
 #print axioms Lattigo.C08.chunked_roundtrip
 #print axioms Lattigo.C08.enc_bytes
-#print axioms Lattigo.C08.bounded_alloc_partial
-#print axioms Lattigo.C08.bounded_alloc_counterexample
+#print axioms Lattigo.C08.bounded_alloc
+#print axioms Lattigo.C08.bounded_alloc_honest
 #print axioms Lattigo.C08.recv_indep_fresh
 #print axioms Lattigo.C08.recv_indep_clean
-#print axioms Lattigo.C08.recv_indep_counterexample_flags
-#print axioms Lattigo.C08.recv_indep_counterexample_metadata
-#print axioms Lattigo.C08.recv_indep_counterexample_seed
-#print axioms Lattigo.C08.recv_indep_counterexample_map
+#print axioms Lattigo.C08.recv_indep
